@@ -74,7 +74,11 @@ Checks(r, g, j) ==
                 /\ ~(r.res.tab = "varnames" /\ ~VGE(T, 1, 3))
                 /\ \E i \in 1..Len(r.res.idx) : r.res.idx[i] >= Len(tb)
              THEN <<V("C09.index_range", Len(tb), r.res.idx)>> ELSE <<>>
-  IN c1 \o c2 \o c3 \o c4 \o c5 \o c6 \o c7 \o c8 \o c9 \o c10
+      \* ... and uses only opcodes the table defines (an opcode number moved or dropped in a table shows as <n> in that version's files)
+      nm  == Name(T, r.opcode)
+      c11 == IF R.wf = 1 /\ ~r.cache /\ (nm = "" \/ SubSeq(nm, 1, 1) = "<")
+             THEN <<V("C09.undefined_opcode", "an opcode the table defines", r.opcode)>> ELSE <<>>
+  IN c1 \o c2 \o c3 \o c4 \o c5 \o c6 \o c7 \o c8 \o c9 \o c10 \o c11
 
 Active == tid <= Len(Traces) /\ st = "run"
 
